@@ -42,6 +42,8 @@ def gen_loop_program(rr):
         prog['outside'].append({'name': 'out%d' % i, 'target': rr.choice(targets), 'method': kind})
     nrel = rr.choice([0, 0, 1, 2, 3])
     prog['reloads'] = sorted(rr.sample(range(0, prog['k'] + 1), min(nrel, prog['k'] + 1)))
+    # the producer of the loop's input may be replicated (the first body component then aggregates its replicas)
+    prog['want_repl_input'] = rr.random() < 0.2
     # the condition component may read the loop-carried binding too (next to its same-iteration input)
     prog['stop_reads_binding'] = rr.random() < 0.3
     if prog['nodeps'] and rr.random() < 0.4:
@@ -110,6 +112,8 @@ def body_components(prog):
     else:
         body = [('work', 0, work_refs, prog['repl'], False), ('agg', 0, [('work', False)], None, True),
                 ('stop', 0, [('agg', False)], None, False)]
+    if prog.get('repl_input'):
+        body = [(n, st, refs, r, True if n == 'work' else a) for (n, st, refs, r, a) in body]
     if prog.get('stop_reads_binding'):
         body = [(n, st, ([('val', True)] + refs) if n == 'stop' else refs, r, a) for (n, st, refs, r, a) in body]
     if prog['nodeps']:
@@ -164,8 +168,14 @@ def render_dw(prog):
 def render_package(prog):
     """-> (main FlowIR text, {file name under conf/: DoWhile document}); fills o['ref'], o['stage'] of outside consumers"""
     loops = loops_of(prog)
+    flag = bool(prog.get('want_repl_input')) and all(lp['template'] != 'replicated' and not lp.get('stop_reads_binding')
+                                                     for lp in loops)
+    for lp in loops:
+        lp['repl_input'] = 2 if flag else None
     main = ['variables:', '  default:', '    global:', '      targetLoops: 5', '      uv: default-uv', 'components:',
             '- stage: 0', '  name: GenerateInput', '  command: {executable: echo, arguments: "0 %(uv)s"}']
+    if flag:
+        main += ['  workflowAttributes: {replicate: 2}']
     if any(lp['const_binding'] for lp in loops):
         main += ['- stage: 0', '  name: Const', '  command: {executable: echo, arguments: "c"}']
     for st in range(1, max(lp['import_stage'] for lp in loops)):
@@ -216,7 +226,8 @@ def expected_loop(prog, k):
             return ['stage%d.%d#%s%d' % (st, i, name, r) for r in range(repl[name])]
         return ['stage%d.%d#%s' % (st, i, name)]
 
-    nodes = {'stage0.GenerateInput': set()}
+    gen = ['stage0.GenerateInput%d' % r for r in range(prog['repl_input'])] if prog.get('repl_input') else ['stage0.GenerateInput']
+    nodes = {g: set() for g in gen}
     if prog['const_binding']:
         nodes['stage0.Const'] = set()
     carried = bn(prog, prog['carried_from'])
@@ -227,7 +238,7 @@ def expected_loop(prog, k):
                 for (p, is_b) in refs:
                     if is_b and p == 'val':
                         if i == 0:
-                            preds.add('stage0.GenerateInput')
+                            preds.update(gen)
                         else:
                             preds.update(inst(carried, i - 1))
                     elif is_b and p == 'const':
@@ -604,7 +615,14 @@ def run_loop_history(prog, root, viol, cnt, fixpoint_cycles=1):
         wg = exp.experimentGraph
         docs = wg._documents[F.FlowIR.LabelDoWhile]
         name = 'stage%d.%s' % (lp['import_stage'], lp['name'])
-        new = wg.instantiate_dowhile_next_iteration(docs[name]['document'], ks[li] + 1, True)
+        try:
+            new = wg.instantiate_dowhile_next_iteration(docs[name]['document'], ks[li] + 1, True)
+        except Exception as e:
+            viol.append({'property': 'C05', 'sig': 'instances:next-iteration-cannot-be-instantiated',
+                         'detail': {'document': name, 'iteration': ks[li] + 1, 'k': list(ks), 'error': repr(e)[:600],
+                                    'replicated_input': bool(lp.get('repl_input'))}})
+            steps.append('iter%d.%d failed' % (li, ks[li] + 1))
+            return steps
         ks[li] += 1
         cnt['op.iterate'] = cnt.get('op.iterate', 0) + 1
         # the controller's part: jobs, working directories; the tasks' part: their outputs
